@@ -12,6 +12,7 @@ from vf import ref_sgml
 from vf import ref_types as R
 from vf import universe as U
 from vf import wire
+from vf.core import disturb_process
 from vf.core import disturb_class
 from vf.core import vacuous, HarnessError, Tally
 
@@ -167,6 +168,7 @@ def lexclass(c, label):
 
 def work(chunk):
     t = Tally()
+    disturb_process()
     for clsname, quick, seed in chunk:
         cls = U.cls_by_name(clsname)
         disturb_class(cls)
